@@ -1,6 +1,6 @@
 PROP = dict(
     id='C04', level='exploration',
-    pyvc=[],
+    pyvc=['contracts.c04'],
     finite=[],
     bounded='bounded.c04',
     bounded_budget=dict(quick=45, thorough=420),
